@@ -6,22 +6,25 @@
 (* from the source) and "y" (a data row delivered to the consumer) events, *)
 (* plus the pulls seen during construction.  Accepted iff construction     *)
 (* pulled no data row and every pull is within the composed need of the    *)
-(* row being produced: pulls <= Need(pipe, yielded + 1).                   *)
+(* row being produced: pulls <= NeedS(pipe, yielded + 1), the tolerant      *)
+(* ("k plus a small constant" per stage) bound; exceeding the exact        *)
+(* Need(pipe, yielded + 1) of the model is reported as drift only.         *)
 (***************************************************************************)
 EXTENDS Lazy, IOUtils
 Trace == ndJsonDeserialize(IOEnv.TRACE_FILE)
-VARIABLES tid, l, pulls, y, bad
-tvars == <<tid, l, pulls, y, bad>>
+VARIABLES tid, l, pulls, y, bad, drift
+tvars == <<tid, l, pulls, y, bad, drift>>
 T == Trace[tid]
-TInit == /\ tid \in 1..Len(Trace) /\ l = 0 /\ pulls = 0 /\ y = 0 /\ bad = 0
+TInit == /\ tid \in 1..Len(Trace) /\ l = 0 /\ pulls = 0 /\ y = 0 /\ bad = 0 /\ drift = 0
          /\ pipe = T.pipe /\ want = [s \in 1..Len(T.pipe) |-> 0] /\ got = [s \in 1..Len(T.pipe) |-> 0]
          /\ delivered = 0 /\ asked = 0
 TStep == /\ l < Len(T.events) /\ l' = l + 1 /\ UNCHANGED <<tid, vars>>
          /\ IF T.events[l + 1] = "p"
             THEN /\ pulls' = pulls + 1 /\ y' = y
-                 /\ bad' = IF bad = 0 /\ pulls + 1 > Need(pipe, y + 1) THEN l + 1 ELSE bad
-            ELSE pulls' = pulls /\ y' = y + 1 /\ bad' = bad
+                 /\ bad' = IF bad = 0 /\ pulls + 1 > NeedS(pipe, y + 1) THEN l + 1 ELSE bad
+                 /\ drift' = IF drift = 0 /\ pulls + 1 > Need(pipe, y + 1) THEN l + 1 ELSE drift
+            ELSE pulls' = pulls /\ y' = y + 1 /\ bad' = bad /\ drift' = drift
 TNext == TStep
 TDone == l = Len(T.events)
-Verdict == TDone => PrintT(<<"VERDICT", tid, IF T.construction # 0 THEN 999999 ELSE bad>>)
+Verdict == TDone => PrintT(<<"VERDICT", tid, IF T.construction # 0 THEN 999999 ELSE bad, drift>>)
 =============================================================================
